@@ -11,7 +11,7 @@ EXPLANATION = ("Static call-graph + MIR rule: entry points are all public functi
                "terminators (overflow, bounds, division) — must be discharged, either by an automatic local idiom (unwrap dominated by an is_some/is_none test of the same value, constant "
                "index into a fixed array, `len - 1`/`i + 1` arithmetic that cannot overflow for in-memory lengths) or by an entry of the frozen reasoned table below keyed by "
                "(function, kind, callee, ordinal). Any other reachable site is a violation naming the call chain from an entry point.")
-ASSUMPTIONS = ["allocation failure / capacity overflow is not a panic site ('arguments of bounded size')", "user-supplied AsRef<str>/Debug/closures/custom Collectors do not panic",
+ASSUMPTIONS = ["debug_assert!-only panics are not counted (they are compiled out of release builds)", "allocation failure / capacity overflow is not a panic site ('arguments of bounded size')", "user-supplied AsRef<str>/Debug/closures/custom Collectors do not panic",
                "external crates (protobuf, memchr, parking_lot, fnv) do not panic on the calls made", "lock poisoning cannot occur because no panic happens under a lock (this same rule)"]
 
 PANIC_CALLEES = [
@@ -131,6 +131,10 @@ def auto_discharge(f, b, s):
     """Local idioms that make a site unreachable or non-panicking; returns a reason or None."""
     if s["kind"] == "call":
         c = s["detail"]
+        chain = (c.t.get("sp") or {}).get("macros") or (c.t.get("fnsp") or {}).get("macros") or []
+        if any(re.search(r'"debug_assert(_eq|_ne)?"', m) for m in chain):
+            # a development aid that is compiled out of release builds; the property is about the behaviour the assertions document
+            return "debug_assert!: not part of the shipped behaviour (assumption: debug assertions hold)"
         if c.matches(["Option::unwrap", "Option::expect", "Result::unwrap", "Result::expect"]):
             v = peel(c.args[0], transparent=["Option::cloned", "Option::copied", "Option::as_ref", "Option::as_mut"])
             # dominated by is_some/is_ok (true edge) or is_none/is_err (false edge) of the same value
